@@ -11,7 +11,7 @@ from lib.core import czl
 from harness import common, sess, smppref, vsess
 from harness import C02
 
-THEOREMS = ['C01_segmented_outcome', 'C01_event_by_event', 'C01_plain_outcome', 'C01_in_call_sweep', 'C01_failure_wins', 'C01_concurrent_messages', 'C01_stray_responses', 'C01_cancelled_sender', 'C01_cancelled_plain', 'C01_concurrent_nonvacuous', 'C01_nonvacuous']
+THEOREMS = ['C01_segmented_outcome', 'C01_event_by_event', 'C01_plain_outcome', 'C01_in_call_sweep', 'C01_failure_wins', 'C01_concurrent_messages', 'C01_stray_responses', 'C01_cancelled_sender', 'C01_cancelled_plain', 'C01_concurrent_nonvacuous', 'C01_nonvacuous', 'C01_cancelled_nonvacuous']
 IMPORTS = C02.IMPORTS
 
 
